@@ -25,7 +25,7 @@ MANIFEST = {
     'technique': 'runtime monitoring: edit histories with differential oracle against a freshly rebuilt clone + unique-token staleness scan + write tracer',
 }
 LEVEL = 'exploration'
-BUDGET = {'quick': 45, 'thorough': 400}
+BUDGET = {'quick': 60, 'thorough': 400}
 RULE = ('(start database [parsed | api], edit history of length 1..12); a case = one history, all steps compared; distinct by '
         'hash of (start dbml, edit list); non-trivial = at least one edit changed a rendering')
 ASSUMPTIONS = ['pv/clone.py rebuilds faithfully through the public constructors', 'CPython/pyparsing trusted']
